@@ -99,6 +99,9 @@ def _api_dispatch(orch, m, arg):
 def cli_call(arg: dict) -> dict:
     """Run the real click CLI in-process under CliRunner. arg: env, argv."""
     ctx = enter(arg["env"])
+    wf = arg.get("write_fault")
+    if wf:
+        seams.install_write_fault(wf["prefix"], wf["kind"], wf["after"])
     from click.testing import CliRunner
 
     from src.cli import cli
